@@ -42,6 +42,9 @@ def build():
         fs.append(('row', row, list(range(n)), []))
         fs.append(('column', col, list(range(n)), []))
         fs.append(('whole-column', 'C!A:A', list(range(MAXN)), []))  # rows n+1..5 are blank
+        # whole columns A:B of sheet C: column A (the vector, rows n+1..5 blank) and column B (blank but for the 999 in B5);
+        # index 99 stands for a blank cell of the area, the planted 999 counts like any numeric cell
+        fs.append(('whole-columns-AB', 'C!A:B', list(range(MAXN)) + [99] * 4, [999]))
         fs.append(('quoted-sheet', "'O t'!A1:A%d" % n, list(range(n)), []))
         # a sheet whose used range ends in row 1: the cells of the area below it exist only as overrides
         fs.append(('short-sheet', 'U!A1:A%d' % n, list(range(n)), []))
